@@ -308,12 +308,6 @@ func (check typecheck) binaryExpr(n *node) error {
 		if zeroConst(c1) && (c0.rval.IsValid() || isInt(c0.typ.TypeOf())) {
 			return n.cfgErrorf("invalid operation: division by zero")
 		}
-		if c0.rval.IsValid() && c1.rval.IsValid() && !(c0.typ.untyped && c1.typ.untyped) {
-			// Avoid constant conversions below to ensure correct constant integer quotient.
-			// Two untyped operands are not converted, but take the same kind (the later
-			// of integer, rune, floating-point, complex), which is the kind of the result.
-			return nil
-		}
 	}
 
 	// Ensure that if values are untyped, both are converted to the same type
